@@ -16,7 +16,16 @@ from .values import Obligation
 PROVED, REFUTED, UNDECIDED, VACUOUS, COVERED, UNCOVERED, CANDIDATE = (
     "PROVED", "REFUTED", "UNDECIDED", "VACUOUS", "COVERED", "UNCOVERED", "CANDIDATE")
 
-PORTFOLIO = [(7, 4000), (0, 8000), (3, 20000), (11, 45000)]
+# (seed, timeout ms, smt.relevancy).  relevancy=0 instantiates on every term, not only the "relevant" ones: proofs that
+# need a quantifier instance while the string solver is busy unfolding a negative Contains are found at once with it
+# and only by luck without; it can also drown in instances, hence both.
+# Observed on string obligations: a given seed either refutes in well under a second or spins in the sequence solver
+# for minutes, so several short tries come before the long ones.
+PORTFOLIO = [(7, 3000, 2), (0, 3000, 0), (3, 2000, 2), (1, 2000, 2), (2, 2000, 0), (4, 2000, 2),
+             (0, 8000, 2), (5, 6000, 0), (9, 6000, 2), (13, 6000, 2),
+             (3, 20000, 2), (6, 20000, 0), (11, 45000, 2)]
+SHORT_MAX_MS = 8000
+SHORT_BUDGET = False     # canaries: a mutant only has to stop being provable; the short tries of the portfolio suffice
 RLIMIT = int(os.environ.get("PYVC_RLIMIT", "800000000"))
 TIMEOUT_MS = int(os.environ.get("PYVC_TIMEOUT_MS", "120000"))
 
@@ -190,9 +199,13 @@ def discharge1(ob: Obligation, base: List[Any], use_cvc5: bool = True, second_op
     cand_tried = False
     # portfolio: E-matching proofs are sensitive to the solver's random choices; a proof found under
     # any seed is a proof.  Short budgets first, the long budget only as the last resort.
-    for seed, tmo in PORTFOLIO:
+    saturated = set()
+    for seed, tmo, relevancy in PORTFOLIO:
+        if relevancy in saturated or (SHORT_BUDGET and tmo > SHORT_MAX_MS):
+            continue
         s = _mk_solver(base, False)
         s.set("timeout", tmo)
+        s.set("smt.relevancy", relevancy)
         s.set("random_seed", seed)
         s.set("smt.random_seed", seed)
         for a in ob.assumptions:
@@ -208,7 +221,13 @@ def discharge1(ob: Obligation, base: List[Any], use_cvc5: bool = True, second_op
             v.time_s = time.time() - t0
             return v
         if "quantifiers" in s.reason_unknown():
-            break      # saturated: more time will not help, go on to the candidate model
+            saturated.add(relevancy)      # saturated: more time will not help (under this relevancy setting)
+            if relevancy == 0:
+                break                     # every term was a trigger candidate: go on to the candidate model
+    if SHORT_BUDGET:
+        v.time_s = time.time() - t0
+        v.reason = "not proved within the short budget"
+        return v
     for backend, mbqi in (("z3-ematch", False), ("z3-mbqi", True)):
         if mbqi and not cand_tried:
             cand_tried = True
@@ -218,6 +237,7 @@ def discharge1(ob: Obligation, base: List[Any], use_cvc5: bool = True, second_op
                 v.solver_output = "unknown from z3-ematch (%s); sat after dropping quantified assumptions" % v.reason
                 break
         s = _mk_solver(base, mbqi)
+        s.set("timeout", min(TIMEOUT_MS, 30000))
         for a in ob.assumptions:
             s.add(a)
         s.add(z3.Not(goal))
